@@ -532,7 +532,7 @@ func TestVerifRaceBalancer(t *testing.T) {
 	runs := int64(len(cfgs))
 	if env.Tier == "thorough" {
 		budget = 4 * time.Second
-		runs = int64(len(cfgs)) * 3
+		runs = int64(len(cfgs)) * 12
 	}
 	for _, idx := range env.vCases(runs) {
 		cfg := cfgs[idx%int64(len(cfgs))]
@@ -574,7 +574,7 @@ func TestVerifPoolStress(t *testing.T) {
 	cfgs := ssConfigs()
 	runs := int64(12)
 	if env.Tier == "thorough" {
-		runs = 400
+		runs = 1200
 	}
 	for _, idx := range env.vCases(runs) {
 		rng := vNewRand(env.Seed, "poolstress/"+env.Prop, idx)
